@@ -78,6 +78,9 @@ def judgeObs (lim : Limits) (toks : List String) : List String :=
       [s!"depth-exceeded maxcsp={get "maxcsp"} depth={lim.depth}"] else []
   let v3 := if lim.stack > 0 ∧ get "maxsp" > lim.stack - 1 then
       [s!"stack-exceeded maxsp={get "maxsp"} stack={lim.stack}"] else []
+  -- slots at or above the lowered StackSize that were written at any time (also between two instruction fetches)
+  let v3 := v3 ++ (if lim.stack > 0 ∧ get "maxtouch" > lim.stack - 1 then
+      [s!"stack-exceeded maxtouch={get "maxtouch"} stack={lim.stack}"] else [])
   let v4 := if get "csp" != -1 ∨ get "sp" != -1 then
       (if lim.hasSafe ∧ get "csp" == -1 then [s!"not-unwound through-safe-apply sp={get "sp"}"]
        else [s!"not-unwound csp={get "csp"} sp={get "sp"}"]) else []
